@@ -126,6 +126,9 @@ def check(fb, ctx):
                 none_like = any(v in ("_",) or (v or "").endswith("::None") for v in vs) and not any((v or "").endswith("::Some") for v in vs) if cells is None else all(("_" in c) or any((v or "").endswith("::None") for v in c) for c in cells)
                 if not none_like:
                     continue
+                body_ = arm["body"]
+                if isinstance(body_, dict) and ((body_.get("k") == "block" and not body_.get("stmts") and body_.get("expr") is None) or (body_.get("k") == "tup" and not body_.get("es"))):
+                    continue      # `_ => {}`: a statement-level test (a version gate written as a match), nothing is decoded in this arm
                 n += 1
                 inst = f"{b['path']}@match#{m['ln'] - b['line']}"
                 ev = hirq.err_variant(arm["body"])
